@@ -40,7 +40,7 @@ __all__ = ['Envelope']
 # ``unknown-8bit`` encoded words and can raise UnicodeEncodeError.
 _GENERATOR_POLICY = SMTP.clone(refold_source='none')
 
-_HEADER_BOUNDARY = re.compile(br'\r?\n\s*?\n')
+_HEADER_BOUNDARY = re.compile(br'(?:\A|\r?\n)\s*?\n')
 _LINE_BREAK = re.compile(br'\r?\n')
 
 
